@@ -487,9 +487,30 @@ def canon_if(fn, s, env):
                 return inner
         if len(body) == 1 and isinstance(body[0], ast.Assign) and len(body[0].targets) == 1 and isinstance(body[0].targets[0], ast.Name):
             return body[0]
+        if len(body) == 1 and isinstance(body[0], ast.AugAssign) and isinstance(body[0].target, ast.Name):
+            return body[0]
         return None
     a, b = single_assign(s.body), single_assign(s.orelse)
-    if a is None or b is None or a.targets[0].id != b.targets[0].id:
+    if isinstance(a, ast.AugAssign) and isinstance(b, ast.AugAssign):
+        # `if c: x op= u  else: x op= v`   ==   `x op= (u if c else v)`   (u, v, c pure)
+        if a.target.id != b.target.id or type(a.op) is not type(b.op):
+            return None
+        saved = fn.ntmp
+        try:
+            for v in (a.value, b.value):
+                binds, _, ty = tr_expr(fn, v, env)
+                if binds or ty != T_INT:
+                    return None
+            bc, _, _ = tr_cond(fn, s.test, env)
+            if bc or narrowing(s.test, env):
+                return None
+        except Unsupported:
+            return None
+        finally:
+            fn.ntmp = saved
+        new = ast.AugAssign(target=ast.Name(id=a.target.id, ctx=ast.Store()), op=a.op, value=ast.IfExp(test=s.test, body=a.value, orelse=b.value), lineno=s.lineno)
+        return ast.fix_missing_locations(ast.copy_location(new, s))
+    if a is None or b is None or isinstance(a, ast.AugAssign) or isinstance(b, ast.AugAssign) or a.targets[0].id != b.targets[0].id:
         return None
     saved = fn.ntmp
     try:
@@ -708,6 +729,49 @@ def module_consts(tree):
                 out[s.targets[0].id] = v.value
     return out
 
+class _DesugarListComp(ast.NodeTransformer):
+    """`x = [e for a in A for b in B if c]` / `return [e for ...]`  ->  the equivalent `x = []` + nested `for` + `x.append(e)`
+    (what the comprehension means when `e`, `A`, `B`, `c` have no side effects on `x`), so that both spellings translate alike"""
+    def __init__(self):
+        self.n = 0
+    def _loops(self, comp, target):
+        body = [ast.Expr(ast.Call(func=ast.Attribute(value=ast.Name(id=target, ctx=ast.Load()), attr='append', ctx=ast.Load()), args=[comp.elt], keywords=[]))]
+        for g in reversed(comp.generators):
+            if g.is_async:
+                raise Unsupported('async comprehension')
+            for c in reversed(g.ifs):
+                body = [ast.If(test=c, body=body, orelse=[])]
+            body = [ast.For(target=g.target, iter=g.iter, body=body, orelse=[])]
+        return body
+    def _expand(self, stmts):
+        out = []
+        for st in stmts:
+            for fld in ('body', 'orelse'):
+                if isinstance(getattr(st, fld, None), list) and not isinstance(st, (ast.FunctionDef, ast.ClassDef)):
+                    setattr(st, fld, self._expand(getattr(st, fld)))
+            if isinstance(st, ast.Return) and isinstance(st.value, ast.ListComp):
+                self.n += 1
+                nm = f'result{self.n}' if self.n > 1 else 'result'
+                out.append(ast.Assign(targets=[ast.Name(id=nm, ctx=ast.Store())], value=ast.List(elts=[], ctx=ast.Load())))
+                out += self._loops(st.value, nm)
+                out.append(ast.Return(value=ast.Name(id=nm, ctx=ast.Load())))
+            elif isinstance(st, ast.Assign) and len(st.targets) == 1 and isinstance(st.targets[0], ast.Name) and isinstance(st.value, ast.ListComp):
+                nm = st.targets[0].id
+                if any(isinstance(n, ast.Name) and n.id == nm for n in ast.walk(st.value)):
+                    out.append(st); continue
+                out.append(ast.Assign(targets=[ast.Name(id=nm, ctx=ast.Store())], value=ast.List(elts=[], ctx=ast.Load())))
+                out += self._loops(st.value, nm)
+            else:
+                out.append(st)
+        for o in out:
+            ast.copy_location(o, stmts[0]) if stmts else None
+            ast.fix_missing_locations(o)
+        return out
+
+def desugar(f):
+    f.body = _DesugarListComp()._expand(f.body)
+    return f
+
 def translate(repo):
     out = ['/- GENERATED by tools/py2lean.py from the current /repo working tree. DO NOT EDIT. -/',
            'import A5.Model.PySem', '', 'set_option linter.unusedVariables false', '']
@@ -768,6 +832,7 @@ def translate(repo):
                 fn.helpers = {k: v for k, v in funcs.items() if k not in names and k != name}
                 fn.ret_type = rtype
                 fn.sigs[name] = (ptypes, rtype)      # (recursion is not expected, but the signature is known)
+                desugar(f)
                 body = tr_block(fn, f.body, env, K(lambda e2: (_ for _ in ()).throw(Unsupported('control reaches the end without return'))), 1)
                 params = ' '.join(f'({lname(p.arg)} : {env[p.arg]})' for p in a.args)
             except Unsupported as e:
